@@ -60,8 +60,8 @@ class C07(Prop):
         ("F", "two nodes (any identifiers): the step consists of exactly two half-step two-site updates on the only edge and no backward site update "
               "(C07_two_node_trace); with the identity embedding the projected Hamiltonian is H (C07_two_node_projection)"),
         ("F", "on every tree the (object, signed factor) sequence of the step is a palindrome (C07_palindrome)"),
-        ("F", "bounded, all trees <= 10 nodes: +dt on every edge, -(degree-1)dt on every node, every TwoSite event on an edge (C07_durations_bounded_10)"),
-        ("F", "bounded, all trees <= 9 nodes: centre on the updated pair, every block read fresh over two consecutive steps without re-initialisation, "
+        ("F", "for every tree >= 2 nodes (C07_durations; bounded companion kept): +dt on every edge, -(degree-1)dt on every node, every TwoSite event on an edge (C07_durations_bounded_10)"),
+        ("F", "for every tree >= 2 nodes (C07_schedule_ok; bounded companion kept): centre on the updated pair, every block read fresh over two consecutive steps without re-initialisation, "
               "the step ends with the centre on update_path[0] (C07_schedule_ok_bounded_9)"),
         ("F", "the truncation rule keeps between 1 and max_bond_dim singular values (C07_bond_bounded = C10's select_spec)"),
         ("O", "Layer A: a unitary commuting with K = E^+HE preserves norm and energy of E A (C07_local_update_conserves); contracts: expm kernel, "
